@@ -145,10 +145,68 @@ fn case_strategy() -> impl Strategy<Value = TrainCase> {
         })
 }
 
+/// Corpora around the representation limits: one token (also a dictionary word and a tagged,
+/// ambiguous token) of `word_len` characters, in sentences of `word_len` + 4 characters.
+fn long_word_case(word_len: usize, k: usize) -> TrainCase {
+    use vcommon::oracle::RefSentence;
+    let alphabet: [char; 5] = if k % 2 == 0 { ['a', 'b', 'c', 'd', 'e'] } else { ['火', 'あ', '𠀋', 'ア', 'é'] };
+    let word: Vec<char> = (0..word_len).map(|i| alphabet[(i * i + i / 3) % 5]).collect();
+    let mk = |prefix: &str, suffix: &str, tag: &str| {
+        let mut chars: Vec<char> = prefix.chars().collect();
+        let a = chars.len();
+        chars.extend(word.iter().copied());
+        let b = chars.len();
+        chars.extend(suffix.chars());
+        let n = chars.len();
+        let mut labels = vec![NB; n - 1];
+        if a > 0 {
+            labels[a - 1] = WB;
+        }
+        if b < n {
+            labels[b - 1] = WB;
+        }
+        let mut tags = vec![vec![]; n];
+        tags[b - 1] = vec![Some(tag.to_string())];
+        if a > 0 {
+            tags[a - 1] = vec![Some("P".to_string())];
+        }
+        RefSentence { chars, labels, tags, n_tags: 1 }
+    };
+    let corpus = vec![mk("xy", "zw", "A"), mk("z", "", "B"), mk("", "xyz", "A"), mk("yx", "w", "C")];
+    let w: String = word.iter().collect();
+    let eval = vec![corpus[0].text(), w.clone(), format!("{w}{w}")];
+    TrainCase {
+        cfg: train::TrainCfg {
+            charw: [2, 3, 1][k % 3],
+            charn: [2, 1, 1][k % 3],
+            typew: [2, 1, 3][k % 3],
+            typen: [2, 1, 3][k % 3],
+            // (words above 32767 characters are refused by Trainer::new; every second such case
+            // keeps the long token out of the dictionary so that it is trained on)
+            dict: if word_len > 32767 && k % 2 == 1 { vec!["xy".into(), "z".into()] } else { vec![w, "xy".into(), "z".into()] },
+            dictn: [1u8, 4, 255][k % 3],
+            solver: [1u8, 5, 0, 6][k % 4],
+        },
+        corpus,
+        tag_dict: vec![],
+        eval,
+    }
+}
+
 pub fn run(rep: &mut Report) {
     liblinear::toggle_liblinear_stdout_output(false);
     let _guard = util::redirect_output("/verif/target/C11-train-output.log");
-    let n = rep.n(20000, 200000);
+    rep.run_enum(
+        "long-words",
+        "corpora whose sentences contain one token of 127..70,000 characters (1- and multi-byte) that is also a dictionary word and carries ambiguous tags, buckets 1, 4 and 255: same clauses as train-total",
+        false,
+        [127usize, 128, 254, 255, 256, 257, 300, 1000, 4096, 32767, 32768, 65535, 65536, 70000]
+            .into_iter()
+            .enumerate()
+            .flat_map(|(k, l)| [long_word_case(l, k), long_word_case(l, k + 1)]),
+        test_case,
+    );
+    let n = rep.n(20000, 1000000);
     rep.run_prop(
         "train-total",
         "window and n-gram sizes from {0,1,2,3,4,7} (incl. n > window and differing windows), \
